@@ -16,6 +16,7 @@ import Mqtt5V.Model.Session
 import Driver.Trace
 import Driver.TraceIn
 import Driver.TraceContent
+import Driver.TraceDisc
 /-! `mdrv`: the model behind a one-line-in / one-line-out protocol (DESIGN.md Appendix B).
 Imports Model/Spec/Gen only (no Mathlib, so it links as a native executable). -/
 open Mqtt5V
@@ -86,6 +87,7 @@ def pureStep (ws : List String) : String :=
   | "trace" :: toks => Driver.Trace.step toks
   | "tracein" :: toks => Driver.TraceIn.step toks
   | "tracecontent" :: toks => Driver.TraceContent.step toks
+  | "tracedisc" :: toks => Driver.TraceDisc.step toks
   | "enc" :: _ => Driver.Codec.step ws
   | "dupenc" :: _ => Driver.Codec.step ws
   | "varlen" :: _ => Driver.Codec.step ws
